@@ -2,6 +2,8 @@ package service_account
 
 import (
 	"fmt"
+	"math"
+	"math/bits"
 
 	types "github.com/New-JAMneration/JAM-Protocol/internal/types"
 	utils "github.com/New-JAMneration/JAM-Protocol/internal/utilities"
@@ -184,14 +186,24 @@ func CalcOctets(account types.ServiceAccount) types.U64 {
 // a_t: calculate threshold(minimum) balance needed for any account in terms of storage footprint
 func CalcThresholdBalance(aI types.U32, aO types.U64, aF types.U64) types.U64 {
 	/*
-		a_t ∈ N_B ≡ B_S + B_I*a_i + B_L*a_o
+		a_t ∈ N_B ≡ max(0, B_S + B_I*a_i + B_L*a_o - a_f)
 	*/
-	storage := types.U64(types.BasicMinBalance) + types.U64(types.U32(types.AdditionalMinBalancePerItem)*aI) + types.U64(types.AdditionalMinBalancePerOctet)*aO
-	if storage < aF {
+	// B_S + B_I*a_i + B_L*a_o can exceed 2^64 (a_o is a 64-bit count), so the sum is carried in 128 bits
+	// (hi, lo); B_I*a_i is computed in 64 bits (a 32-bit product wraps from a_i = 2^32/10 on).
+	hi, lo := bits.Mul64(uint64(types.AdditionalMinBalancePerOctet), uint64(aO))
+	lo, carry := bits.Add64(lo, uint64(types.BasicMinBalance)+uint64(types.AdditionalMinBalancePerItem)*uint64(aI), 0)
+	hi += carry
+	lo, borrow := bits.Sub64(lo, uint64(aF), 0)
+	if hi == 0 && borrow != 0 {
 		// result < 0
 		return 0
 	}
-	return storage - aF
+	hi -= borrow
+	if hi != 0 {
+		// the exact threshold does not fit a balance: no balance can cover it
+		return types.U64(math.MaxUint64)
+	}
+	return types.U64(lo)
 }
 
 /*
